@@ -400,6 +400,7 @@ mmc_opcodes = {
     "READ_BUFFER_16": OpCode("READ_BUFFER_16", 0x9B, {}),
     "READ_BUFFER_CAPACITY": OpCode("READ_BUFFER_CAPACITY", 0x5C, {}),
     "READ_CAPACITY": OpCode("READ_CAPACITY", 0x25, {}),
+    "READ_CAPACITY_10": OpCode("READ_CAPACITY_10", 0x25, {}),
     "READ_CD": OpCode("READ_CD", 0xBE, {}),
     "READ_CD_MSF": OpCode("READ_CD_MSF", 0xB9, {}),
     "READ_DISC_INFORMATION": OpCode("READ_DISC_INFORMATION", 0x51, {}),
@@ -424,6 +425,7 @@ mmc_opcodes = {
     "SET_STREAMING": OpCode("SET_STREAMING", 0xB6, {}),
     "START_STOP_UNIT": OpCode("START_STOP_UNIT", 0x1B, {}),
     "SYNCHRONIZE_CACHE": OpCode("SYNCHRONIZE_CACHE", 0x35, {}),
+    "SYNCHRONIZE_CACHE_10": OpCode("SYNCHRONIZE_CACHE_10", 0x35, {}),
     "TEST_UNIT_READY": OpCode("TEST_UNIT_READY", 0x00, {}),
     "VERIFY_10": OpCode("VERIFY_10", 0x2F, {}),
     "WRITE_10": OpCode("WRITE_10", 0x2A, {}),
